@@ -505,6 +505,51 @@ pub fn run(tier: Tier) {
         }
     }
     pf.exhaustive = true;
+    // length histories on one thread: tables or scratch space remembered from an earlier length must not leak
+    let hsizes: Vec<usize> = vec![2, 8, 64, 512, 1024];
+    let mut hists: Vec<Vec<usize>> = vec![];
+    for &a in &hsizes {
+        for &b in &hsizes {
+            for &c in &hsizes {
+                hists.push(vec![a, b, c]);
+            }
+        }
+    }
+    let hres: Vec<(Vec<usize>, Result<Vec<(f64, f64, f64)>, String>)> = hists
+        .par_iter()
+        .map(|h| {
+            let h2 = h.clone();
+            (h.clone(), crate::sched::on_fresh_thread(move || {
+                h2.iter()
+                    .map(|&n| {
+                        let a: Vec<i64> = (0..n as i64).map(|i| ((i * 7919 + 13) % 32749) - 16374).collect();
+                        let b: Vec<i64> = (0..n as i64).map(|i| ((i * 104729 + 7) % 2039) - 1019).collect();
+                        (roundtrip_error(&a).unwrap_or(f64::INFINITY), split_merge_error(&a).unwrap_or(f64::INFINITY), product_error(&a, &b, None).unwrap_or(f64::INFINITY))
+                    })
+                    .collect::<Vec<_>>()
+            }))
+        })
+        .collect();
+    let mut ph = Part::new("length_histories", "every sequence of three lengths over {2, 8, 64, 512, 1024} on one fresh thread; at each step fft/ifft round trip, split/merge (against the half transforms) and a product against the exact schoolbook result on dense operands of that length: every step within 2^-30 of the operand norms whatever lengths came before");
+    for (h, r) in hres {
+        ph.states += 1;
+        ph.transitions += 3 * h.len() as u64;
+        ph.validated += h.len() as u64;
+        match r {
+            Err(e) => ctx.violation("fft:length-history:panic".to_string(), format!("panic in the length history {:?}: {}", h, e), json!({"kind":"length-history","n":h[0],"history":h})),
+            Ok(errs) => {
+                for (step, e) in errs.iter().enumerate() {
+                    let w = e.0.max(e.1).max(e.2);
+                    if !(w <= 1.0) {
+                        ctx.violation(format!("fft:length-history:step{}", step + 1), format!("in the length history {:?} on one thread, step {} (n = {}) is off by {:.3e} x the allowance (round trip {:.2e}, split/merge {:.2e}, product {:.2e})", h, step + 1, h[step], w, e.0, e.1, e.2), json!({"kind":"length-history","n":h[0],"history":h}));
+                        break;
+                    }
+                }
+            }
+        }
+    }
+    ph.exhaustive = true;
+    ph.outcome("every step within the allowance".to_string());
     let mut worst = (0.0f64, 0.0f64, 0.0f64);
     for (n, (b, p, c)) in res {
         for (part, r, w) in [(&mut pb, &b, &mut worst.0), (&mut pp, &p, &mut worst.1), (&mut pc, &c, &mut worst.2)] {
@@ -530,6 +575,7 @@ pub fn run(tier: Tier) {
     ctx.add_part(ps);
     ctx.add_part(pd);
     ctx.add_part(pf);
+    ctx.add_part(ph);
 
     // informational: distance of the precomputed table from cos/sin (not a verdict)
     let table = fh::complex_table();
@@ -547,6 +593,9 @@ pub fn run(tier: Tier) {
 
 pub fn replay(case: &Value) -> Result<Option<String>, String> {
     let n = case.get("n").and_then(|x| x.as_u64()).ok_or("n")? as usize;
+    if case.get("kind").and_then(|x| x.as_str()) == Some("length-history") {
+        return Err("re-run ./vf check C13 (the length histories are enumerated deterministically)".into());
+    }
     if case.get("kind").and_then(|x| x.as_str()) == Some("fft-sparsity") {
         return Ok(check_fft_sparsity(n).found.into_iter().next().map(|f| f.what));
     }
